@@ -24,12 +24,12 @@ PROPERTY = {
               "part's line_offset is that counter plus the index of its first line in the chunk",
               'parse_freeform_docstr_examples (asone): the doctest of a docstring is created with line = lineno + the number of docstring '
               'lines (text lines, skipped special-block parts) before its first kept part; doctest_from_parts passes lineno + that '
-              'offset to DocTest(..); DocTest.__init__ stores line, index and text',
+              'offset to DocTest(..) and rebases every part so that parts[k].line_offset == old offset - old offset of the first part '
+              '(quantified loop invariant over the mutable element field); DocTest.__init__ stores line, index and text',
               'parse_google_docstr_examples: a block labelled at offset o of the docstring becomes a doctest at line lineno + o + 1'],
         'B': ['the real freeform / google parsers on random docstrings: every (doctest line + part offset) points at the docstring line that holds the first source line of that part, and failed_lineno() at the statement that raised (bounded/c08_lines.py)'],
         'T': ['tb_lineno / end_lineno produced by CPython',
-              "the rebasing loop of doctest_from_parts (p.line_offset -= parts[0].line_offset) is dropped from the verified region (in-place "
-              "mutation of list elements); split_google_docblocks' offsets and the docstring start line found by static analysis are assumed"],
+              "split_google_docblocks' offsets and the docstring start line found by static analysis are assumed"],
     },
     'explanation': 'C08: offset arithmetic of the three failure kinds, and of the three places that assign line numbers while parsing.',
 }
